@@ -19,6 +19,7 @@ package server
 import (
 	"encoding/json"
 	"fmt"
+	"sort"
 	"time"
 
 	"github.com/snower/slock/protocol"
@@ -58,6 +59,10 @@ type DCBody struct {
 	// ZeroIdBystander: bystander 0 announces the all-zero client id (what a connection that never
 	// announced anything carries internally)
 	ZeroIdBystander bool       `json:"zero_id_bystander,omitempty"`
+	// Reinit: one more connection announces the first victim's client id while the victim is still there,
+	// and a moment later announces an id of its own (a second INIT on one connection): from then on it is
+	// a stranger to the victim and must get none of its replies; it works on a key of its own to the end
+	Reinit bool `json:"reinit,omitempty"`
 	NBystanders   int        `json:"nbystanders"`
 	BystanderOps  int        `json:"bystander_ops"`
 	FinalWaitS    int        `json:"final_wait_s"`
@@ -137,6 +142,9 @@ func genDisconnect(prop string, seed uint64, tier string) *Scenario {
 		if vc := &body.Victims[q.Intn(len(body.Victims))]; vc.Chain == 0 {
 			vc.CloseMode = "quit"
 		}
+	}
+	if ri := ssched.Sub(seed, "reinit"); ri.Intn(4) == 0 && body.Victims[0].ClientId != 0 {
+		body.Reinit = true // a draw stream of its own
 	}
 	raw, _ := json.Marshal(body)
 	k := genKnobs(r)
@@ -596,6 +604,33 @@ func runDisconnect(w *World) {
 				}
 			})
 		}
+		if body.Reinit {
+			total++
+			ssched.SpawnOn(0, "reinit", func() {
+				defer func() { fin++ }()
+				sleep(150 * time.Millisecond)
+				c, cid, err := newConn(body.Victims[0].ClientId)
+				if err != nil {
+					return
+				}
+				sleep(80 * time.Millisecond)
+				ic := protocol.NewInitCommand(dcClientId(700))
+				buf := make([]byte, 64)
+				_ = ic.Encode(buf)
+				if _, err := c.conn.Write(buf); err != nil {
+					return
+				}
+				ssched.NoPreempt(func() { clientIdOfConn[cid] = 700 })
+				w.probe("second_init_connections")
+				idx := 0
+				for i := 0; i < body.BystanderOps+6; i++ {
+					send(c, cid, &idx, OpSpec{Cmd: 1, Key: 230, Lid: 530, Expried: 5, Count: 0, DelayMs: 100}, true)
+					sleep(400 * time.Millisecond)
+					send(c, cid, &idx, OpSpec{Cmd: 2, Key: 230, Lid: 530}, true)
+					sleep(400 * time.Millisecond)
+				}
+			})
+		}
 		for b := 0; b < body.NBystanders; b++ {
 			b := b
 			total++
@@ -670,6 +705,18 @@ func runDisconnect(w *World) {
 				if vc.Wills {
 					expect += 1 + vc.MoreWills // will key B and the further will LOCKs, 300 s terms
 				}
+			}
+			// the table of announced client ids: an entry whose connection has ended is a leak (and the door
+			// through which a later reply reaches a stranger)
+			var stale []string
+			for id, sp := range leader.sl.clients {
+				if bp, ok := sp.(*BinaryServerProtocol); ok && bp.closed {
+					stale = append(stale, fmt.Sprintf("%x", id[:4]))
+				}
+			}
+			if len(stale) > 0 {
+				sort.Strings(stale)
+				w.violate("C18", "client_table_entry_of_closed_connection", "after every connection of the workload has ended the leader's table of announced client ids still holds %d entries that point at closed connections (ids %v)", len(stale), stale)
 			}
 			st := db.GetState()
 			w.probe("final_state_checked")
